@@ -255,6 +255,20 @@ theorem step_entryInv (o : Ops) (s : MSt) (e : MEv) (s' : MSt) (h : EntryInv s.c
     injection hs with hs
     rw [← hs]
     exact track_entryInv s.c p u h
+  | cref r =>
+    simp only [mstep] at hs
+    split at hs
+    · injection hs with hs
+      rw [← hs]
+      unfold handleData
+      split <;> exact h
+    · cases hs
+  | eref r =>
+    simp only [mstep] at hs
+    injection hs with hs
+    rw [← hs]
+    unfold handleData
+    split <;> exact h
 
 /-- **In every reachable state `inentry` implies a last entry exists**: for every event sequence over
 the modelled vocabulary — balanced or not, stray end tags, unclosed or self-nested elements — the
@@ -285,6 +299,7 @@ def Modelled (c : Core) : MEv → Prop
   | .stop tag => let h := handlerName c tag
       c.incontent = false ∧ contentEndKey h = none ∧ extKind h = none ∧ lgKind h = none ∧
       (h == S "channel" || h == S "feed" || h == S "item" || h == S "entry" || (dateKey h).isSome || !hasEnd h) = true
+  | .cref r => (crefText r).isSome = true       -- what sgmllib's tokenizer hands over always is a number
   | _ => True
 
 theorem step_total (o : Ops) (s : MSt) (e : MEv) (hm : Modelled s.c e) : ∃ s', mstep o s e = .ok s' := by
@@ -321,6 +336,13 @@ theorem step_total (o : Ops) (s : MSt) (e : MEv) (hm : Modelled s.c e) : ∃ s',
           exact ⟨_, rfl⟩
   | data t => exact ⟨_, rfl⟩
   | ns p u => exact ⟨_, rfl⟩
+  | cref r =>
+    simp only [Modelled] at hm
+    simp only [mstep]
+    cases hc : crefText r with
+    | some t => exact ⟨_, rfl⟩
+    | none => rw [hc] at hm; cases hm
+  | eref r => exact ⟨_, rfl⟩
 
 /-! ### an open text construct always has content parameters -/
 
@@ -534,6 +556,20 @@ theorem step_cpInv (o : Ops) (s : MSt) (e : MEv) (s' : MSt) (h : CpInv s.c) (hs 
     simp only at hi ⊢
     rw [ht.2]; rw [ht.1] at hi
     exact h hi
+  | cref r =>
+    simp only [mstep] at hs
+    split at hs
+    · injection hs with hs
+      rw [← hs]
+      unfold handleData
+      split <;> exact h
+    · cases hs
+  | eref r =>
+    simp only [mstep] at hs
+    injection hs with hs
+    rw [← hs]
+    unfold handleData
+    split <;> exact h
 
 /-- **An open text construct always has content parameters**: in every state reachable from the initial one — over every event sequence in
 the model's domain — `incontent` implies that `contentparams` is non-empty.  So `_end_content`'s `self.contentparams.get("type")` is never
